@@ -330,6 +330,7 @@ def main():
         print(json.dumps({'status': 'no-witness'}))
         return
     tried = 0
+    cut = None       # set when the enumeration is cut at the cap of this tier
     targeted = [({'a': [(2, None), (None, None)], 'b': [(None, None)], 'c': [(None, None)]},
                  [('start', 'a'), ('process', 1), ('kill', 'a'), ('start', 'a'), ('process', 1),
                   ('process', 1), ('process', 1)])]
@@ -347,8 +348,9 @@ def main():
                               'signature': sig}, default=str))
             return
         if tried > (2500000 if req.get('tier') == 'thorough' else 200000):
+            cut = tried
             break
-    print(json.dumps({'status': 'not-found', 'tried': tried}))
+    print(json.dumps({'status': 'not-found', 'tried': tried, 'truncated_at': cut}))
 
 
 if __name__ == '__main__':
